@@ -117,8 +117,13 @@ def run(chk):
     k2 = Knobs(envelope="asap", sub_slot=0.0, p_alt=0.0, p_tz=0.0, p_eff=0.0, max_res=1, max_tasks=6, p_container=0.7, p_dep=0.7,
                p_gap=0.2, p_onstart=0.0, p_limits=0.1, p_tasklimits=0.0, p_team=0.0, big_effort=0.0, p_wh=0.1, p_leave=0.1,
                aligned_only=True, dur_weeks=[3, 4], p_pin=0.05)
+    # alternatives under contention: outside the reference scheduler's dialect, compared with the model, whose driver evaluates
+    # C07.alternative_earliest_fit on every one of them
+    k3 = Knobs(envelope="asap", sub_slot=0.3, p_alt=0.6, p_tz=0.0, p_team=0.0, p_limits=0.2, p_tasklimits=0.1, p_leave=0.4,
+               max_res=3, max_tasks=6, big_effort=0.3, aligned_only=True, dur_weeks=[3, 4])
+    n3 = 60 if tier == "quick" else 1000
     asts = ([gen.gen_project(chk.rng, k) for _ in range(n // 2)] + [gen.gen_project(chk.rng, k2) for _ in range(n - n // 2)]
-            + [universe_member(chk.rng) for _ in range(nu)])
+            + [universe_member(chk.rng) for _ in range(nu)] + [gen.gen_project(chk.rng, k3) for _ in range(n3)])
     universe = enumerate_universe()
     # quick: a sample of the enumerated universe; thorough: all of it
     asts += universe if tier != "quick" else chk.rng.sample(universe, 150)
@@ -155,7 +160,7 @@ def run(chk):
     chk.cov["distinct_nontrivial"] = nontriv
     chk.cov["in_core_dialect"] = in_dialect
     chk.cov["rule"] = ("random core-dialect projects (aligned calendars, whole-slot efforts, DAGs, priorities, gaps, pinned starts, leaves, "
-                       "limits, teams, all resolutions) plus random members of the bounded universe (<= 3 leaf tasks, efforts 1-3 slots, three "
+                       "limits, teams, all resolutions; a family with alternatives under contention, model and theorem only) plus random members of the bounded universe (<= 3 leaf tasks, efforts 1-3 slots, three "
                        "priorities, dependency subsets, gaps 0/1 slot, pinned start, 1-2 resources with leave or dailymax 2 slots, team or "
                        "single); real scheduler compared with the Lean model AND with an independent reference list scheduler written from "
                        "the rule; non-trivial = distinct in-dialect projects with >= 2 leaf tasks")
